@@ -1,6 +1,479 @@
+/-
+  C07 — non-in-place operations never modify their inputs; in-place is equivalent.
+
+  Value semantics would make this property vacuous, so the model is an OWNERSHIP / HEAP model.
+
+  * The heap has three typed stores: matrix buffers (`data/indices/indptr` of one scipy matrix are
+    one location holding the abstract dense content), ID arrays (numpy arrays) and metadata dicts.
+  * A Table object is a record of *references* (`Obj`): one matrix location plus its layout
+    (CSR/CSC), one ID-array location per axis, optionally one dict location per ID and axis, and the
+    (immutable) type string.
+  * Every API operation is a short program of micro-steps transcribed from `biom/table.py`:
+      `construct`  = `Table.__init__`: `astype(float)` copies the matrix into a fresh buffer (CSR),
+                     `_cast_metadata` wraps every metadata entry in a fresh dict (after the
+                     constructor's "no information" normalisation), `np.asarray(ids)` keeps the
+                     caller's array when it is one (an alias) and makes a new one from a list;
+      `matKernel`  = `tocsr()/tocsc()` (returns self when the layout matches, a new matrix otherwise)
+                     followed by a kernel that writes the buffers it is handed in place
+                     (`_remove_rows_csr`, `_transform`, `_subsample`, `sort_indices`,
+                     `eliminate_zeros`) and `table._data = arr`;
+      `setIds`     = a new ID array is installed (`_filter`: `np.asarray(list(compress(..)))`,
+                     `update_ids`: `zeros(..)`); no API operation writes an ID array in place;
+      `keepMd`     = `tuple(compress(metadata, bools))`: the same dict objects, fewer of them;
+      `addMd`      = `add_metadata`: `dict.update` in place, or a new tuple; then `_cast_metadata`
+                     re-wraps both axes;
+      `delMd`      = `del_metadata`: `del md[k]` in place, `None` when nothing is left.
+  * `Op.inplace r bodies` is `table = self`, `Op.new srcs F .. post` is a constructor call whose
+    arguments are computed from the source tables (`F` is ANY content function: what filter, sort,
+    merge … compute is not re-modelled here) followed by in-place bodies on the new table
+    (`copy()` then the body = the `inplace=False` variant; `head`, `subsample`, `partition`).
+-/
 import BiomModel.Codec
 open Lean
+
 namespace Biom.C07
-/-- stub: not built yet -/
-def handle (_req : Json) : Codec.R Json := .error "C07: model not built yet"
+
+/-- heap locations are natural numbers (index into the store of their kind) -/
+abbrev Loc := Nat
+
+inductive Fmt where
+  | csr | csc
+  deriving Repr, DecidableEq, Inhabited
+
+/-- `_get_sparse_data(axis)`: CSR for observations, CSC for samples -/
+def Fmt.ofAxis : Axis → Fmt
+  | .obs => .csr
+  | .samp => .csc
+
+/-- abstract (observable) content of a table: IDs, values, metadata, type -/
+structure Content (γ : Type) where
+  obs : List Id
+  samp : List Id
+  mat : γ
+  omd : Option (List Md)
+  smd : Option (List Md)
+  ttype : Option String
+  deriving Repr, DecidableEq
+
+namespace Content
+variable {γ : Type}
+def ids (c : Content γ) : Axis → List Id
+  | .obs => c.obs
+  | .samp => c.samp
+def md (c : Content γ) : Axis → Option (List Md)
+  | .obs => c.omd
+  | .samp => c.smd
+def setIds (c : Content γ) : Axis → List Id → Content γ
+  | .obs, l => { c with obs := l }
+  | .samp, l => { c with samp := l }
+def setMd (c : Content γ) : Axis → Option (List Md) → Content γ
+  | .obs, m => { c with omd := m }
+  | .samp, m => { c with smd := m }
+end Content
+
+/-- a Table object: references into the heap -/
+structure Obj where
+  mat : Nat
+  fmt : Fmt
+  obsIds : Nat
+  sampIds : Nat
+  omd : Option (List Nat)
+  smd : Option (List Nat)
+  ttype : Option String
+  deriving Repr, DecidableEq
+
+namespace Obj
+def idsLoc (o : Obj) : Axis → Nat
+  | .obs => o.obsIds
+  | .samp => o.sampIds
+def md (o : Obj) : Axis → Option (List Nat)
+  | .obs => o.omd
+  | .samp => o.smd
+def setIdsLoc (o : Obj) : Axis → Nat → Obj
+  | .obs, l => { o with obsIds := l }
+  | .samp, l => { o with sampIds := l }
+def setMd (o : Obj) : Axis → Option (List Nat) → Obj
+  | .obs, m => { o with omd := m }
+  | .samp, m => { o with smd := m }
+/-- every dict the table references -/
+def dlocs (o : Obj) : List Nat := o.omd.getD [] ++ o.smd.getD []
+end Obj
+
+structure Heap (γ : Type) where
+  mats : List γ
+  ids : List (List Id)
+  dicts : List Md
+  objs : List Obj
+
+def Heap.empty {γ : Type} : Heap γ := { mats := [], ids := [], dicts := [], objs := [] }
+
+/-- the constructor's `no_metadata` + `_cast_metadata`: entries that are all empty carry no
+information and become `None` -/
+def normMd : Option (List Md) → Option (List Md)
+  | none => none
+  | some l => if l.all (·.isEmpty) then none else some l
+
+/-- where the ID array handed to the constructor comes from -/
+inductive IdSrc where
+  | fresh                          -- a list (or `.copy()`): `np.asarray` makes a new array
+  | ofTable (t : Nat) (ax : Axis)  -- a view of a live table's array (`self.ids()[:]`, `other.ids()`)
+  | ofLoc (l : Nat)                -- an array the caller holds
+  deriving Repr, DecidableEq
+
+/-- content of a brand-new metadata tuple built by `add_metadata` on an axis without metadata -/
+def newEntries (ups : List (Option (Md → Md))) : List Md :=
+  ups.map (fun u => match u with | some f => f [] | none => [])
+
+section model
+variable {γ : Type} [Inhabited γ]
+
+namespace Heap
+
+def mat (h : Heap γ) (l : Nat) : γ := h.mats[l]?.getD default
+def idArr (h : Heap γ) (l : Nat) : List Id := h.ids[l]?.getD []
+def dict (h : Heap γ) (l : Nat) : Md := h.dicts[l]?.getD []
+def readMd (h : Heap γ) (m : Option (List Nat)) : Option (List Md) := m.map (·.map h.dict)
+
+/-- deep snapshot of one object -/
+def absObj (h : Heap γ) (o : Obj) : Content γ :=
+  { obs := h.idArr o.obsIds, samp := h.idArr o.sampIds, mat := h.mat o.mat,
+    omd := h.readMd o.omd, smd := h.readMd o.smd, ttype := o.ttype }
+
+/-- deep snapshot of live table `t` -/
+def abs (h : Heap γ) (t : Nat) : Option (Content γ) := h.objs[t]?.map h.absObj
+
+/-- an existing array the constructor argument aliases, if any -/
+def aliasLoc (h : Heap γ) : IdSrc → Option Nat
+  | .fresh => none
+  | .ofLoc l => if l < h.ids.length then some l else none
+  | .ofTable t ax =>
+    match h.objs[t]? with
+    | some o => if o.idsLoc ax < h.ids.length then some (o.idsLoc ax) else none
+    | none => none
+
+/-- `Table.__init__` -/
+def construct (h : Heap γ) (srcs : List Nat) (F : List (Content γ) → Content γ) (os ss : IdSrc) : Heap γ :=
+  let c := F (srcs.filterMap h.abs)
+  let ids1 := match h.aliasLoc os with | some _ => h.ids | none => h.ids ++ [c.obs]
+  let ol := match h.aliasLoc os with | some l => l | none => h.ids.length
+  let ids2 := match h.aliasLoc ss with | some _ => ids1 | none => ids1 ++ [c.samp]
+  let sl := match h.aliasLoc ss with | some l => l | none => ids1.length
+  let om := (normMd c.omd).getD []
+  let sm := (normMd c.smd).getD []
+  { mats := h.mats ++ [c.mat], ids := ids2, dicts := h.dicts ++ om ++ sm,
+    objs := h.objs ++ [{ mat := h.mats.length, fmt := .csr, obsIds := ol, sampIds := sl,
+                         omd := (normMd c.omd).map (fun l => List.range' h.dicts.length l.length),
+                         smd := (normMd c.smd).map (fun l => List.range' (h.dicts.length + om.length) l.length),
+                         ttype := c.ttype }] }
+
+/-- `arr = table._data.tocsr()/tocsc()` ; kernel writes `arr` in place ; `table._data = arr` -/
+def matKernel (h : Heap γ) (t : Nat) (ax : Axis) (g : γ → γ) : Heap γ :=
+  match h.objs[t]? with
+  | none => h
+  | some o =>
+    if o.fmt = Fmt.ofAxis ax then { h with mats := h.mats.set o.mat (g (h.mat o.mat)) }
+    else { h with mats := h.mats ++ [g (h.mat o.mat)],
+                  objs := h.objs.set t { o with mat := h.mats.length, fmt := Fmt.ofAxis ax } }
+
+/-- a new ID array is installed -/
+def setIds (h : Heap γ) (t : Nat) (ax : Axis) (l : List Id) : Heap γ :=
+  match h.objs[t]? with
+  | none => h
+  | some o => { h with ids := h.ids ++ [l], objs := h.objs.set t (o.setIdsLoc ax h.ids.length) }
+
+/-- `tuple(compress(metadata, bools))` -/
+def keepMd (h : Heap γ) (t : Nat) (ax : Axis) (mask : List Bool) : Heap γ :=
+  match h.objs[t]? with
+  | none => h
+  | some o => { h with objs := h.objs.set t (o.setMd ax ((o.md ax).map (fun ls => filterMask ls mask))) }
+
+/-- `_cast_metadata`: both axes are re-wrapped in fresh dicts with the same contents -/
+def recast (h : Heap γ) (t : Nat) : Heap γ :=
+  match h.objs[t]? with
+  | none => h
+  | some o =>
+    let oc := (o.omd.getD []).map h.dict
+    let sc := (o.smd.getD []).map h.dict
+    { h with dicts := h.dicts ++ oc ++ sc,
+             objs := h.objs.set t { o with omd := o.omd.map (fun l => List.range' h.dicts.length l.length),
+                                           smd := o.smd.map (fun l => List.range' (h.dicts.length + oc.length) l.length) } }
+
+/-- a run of in-place dict writes (`d.update(..)`, `del d[k]`) -/
+def writeDicts (h : Heap γ) : List (Nat × Option (Md → Md)) → Heap γ
+  | [] => h
+  | (l, some u) :: r => writeDicts { h with dicts := h.dicts.set l (u (h.dict l)) } r
+  | (_, none) :: r => writeDicts h r
+
+/-- `add_metadata` -/
+def addMd (h : Heap γ) (t : Nat) (ax : Axis) (ups : List (Option (Md → Md))) : Heap γ :=
+  match h.objs[t]? with
+  | none => h
+  | some o =>
+    match o.md ax with
+    | some locs => (h.writeDicts (locs.zip ups)).recast t
+    | none =>
+      if ups.all (·.isNone) then h.recast t
+      else
+        -- the tuple first holds the caller's own dicts (objects outside every table) ...
+        let h1 : Heap γ := { h with dicts := h.dicts ++ newEntries ups,
+                                    objs := h.objs.set t (o.setMd ax (some (List.range' h.dicts.length ups.length))) }
+        -- ... and `_cast_metadata` wraps them
+        h1.recast t
+
+/-- `del_metadata` on one axis; `none` = `keys=None` -/
+def delMd (h : Heap γ) (t : Nat) (ax : Axis) (d : Option (Md → Md)) : Heap γ :=
+  match h.objs[t]? with
+  | none => h
+  | some o =>
+    match d with
+    | none => { h with objs := h.objs.set t (o.setMd ax none) }
+    | some f =>
+      match o.md ax with
+      | none => h
+      | some locs =>
+        let h1 := h.writeDicts (locs.map (fun l => (l, some f)))
+        if locs.all (fun l => (h1.dict l).isEmpty) then { h1 with objs := h1.objs.set t (o.setMd ax none) }
+        else h1
+
+end Heap
+
+/-- primitive actions -/
+inductive Micro (γ : Type) where
+  | allocIds (l : List Id)
+  | construct (srcs : List Nat) (F : List (Content γ) → Content γ) (os ss : IdSrc)
+  | matKernel (t : Nat) (ax : Axis) (g : γ → γ)
+  | setIds (t : Nat) (ax : Axis) (l : List Id)
+  | keepMd (t : Nat) (ax : Axis) (mask : List Bool)
+  | addMd (t : Nat) (ax : Axis) (ups : List (Option (Md → Md)))
+  | delMd (t : Nat) (ax : Axis) (d : Option (Md → Md))
+
+/-- the table an action modifies in place (`none`: it only allocates) -/
+def Micro.target : Micro γ → Option Nat
+  | .allocIds _ => none
+  | .construct .. => none
+  | .matKernel t .. => some t
+  | .setIds t .. => some t
+  | .keepMd t .. => some t
+  | .addMd t .. => some t
+  | .delMd t .. => some t
+
+def step (h : Heap γ) : Micro γ → Heap γ
+  | .allocIds l => { h with ids := h.ids ++ [l] }
+  | .construct srcs F os ss => h.construct srcs F os ss
+  | .matKernel t ax g => h.matKernel t ax g
+  | .setIds t ax l => h.setIds t ax l
+  | .keepMd t ax mask => h.keepMd t ax mask
+  | .addMd t ax ups => h.addMd t ax ups
+  | .delMd t ax d => h.delMd t ax d
+
+def run (h : Heap γ) (ms : List (Micro γ)) : Heap γ := ms.foldl step h
+
+/-- existing locations an action writes: (matrix buffers, dicts).  ID arrays: never. -/
+def writes (h : Heap γ) : Micro γ → List Nat × List Nat
+  | .allocIds _ => ([], [])
+  | .construct .. => ([], [])
+  | .matKernel t ax _ =>
+    match h.objs[t]? with
+    | some o => if o.fmt = Fmt.ofAxis ax then ([o.mat], []) else ([], [])
+    | none => ([], [])
+  | .setIds .. => ([], [])
+  | .keepMd .. => ([], [])
+  | .addMd t ax _ =>
+    match h.objs[t]? with
+    | some o => ([], (o.md ax).getD [])
+    | none => ([], [])
+  | .delMd t ax d =>
+    match h.objs[t]?, d with
+    | some o, some _ => ([], (o.md ax).getD [])
+    | _, _ => ([], [])
+
+/-- the bodies of the operations that can run in place, on target table `t` -/
+inductive Body (γ : Type) where
+  | filter (ax : Axis) (g : γ → γ) (ids : List Id) (mask : List Bool)
+  | transform (ax : Axis) (g : γ → γ)        -- transform, norm, pa, rankdata; the subsample kernel
+  | updateIds (ax : Axis) (ids : List Id)
+  | addMd (ax : Axis) (ups : List (Option (Md → Md)))
+  | delMd (ax : Axis) (d : Option (Md → Md))
+
+def Body.micro (t : Nat) : Body γ → List (Micro γ)
+  | .filter ax g ids mask => [.matKernel t ax g, .setIds t ax ids, .keepMd t ax mask]
+  | .transform ax g => [.matKernel t ax g]
+  | .updateIds ax ids => [.setIds t ax ids]
+  | .addMd ax ups => [.addMd t ax ups]
+  | .delMd ax d => [.delMd t ax d]
+
+def bodiesMicro (t : Nat) (bs : List (Body γ)) : List (Micro γ) := bs.flatMap (Body.micro t)
+
+/-- what a body does to the content of its target — a function of the content alone -/
+def zipUpd : List Md → List (Option (Md → Md)) → List Md
+  | m :: ms, some f :: us => f m :: zipUpd ms us
+  | m :: ms, none :: us => m :: zipUpd ms us
+  | ms, [] => ms
+  | [], _ => []
+
+def Micro.absStep : Micro γ → Content γ → Content γ
+  | .allocIds _, c => c
+  | .construct .., c => c
+  | .matKernel _ _ g, c => { c with mat := g c.mat }
+  | .setIds _ ax l, c => c.setIds ax l
+  | .keepMd _ ax mask, c => c.setMd ax ((c.md ax).map (fun ms => filterMask ms mask))
+  | .addMd _ ax ups, c =>
+    match c.md ax with
+    | some ms => c.setMd ax (some (zipUpd ms ups))
+    | none => if ups.all (·.isNone) then c else c.setMd ax (some (newEntries ups))
+  | .delMd _ ax d, c =>
+    match d with
+    | none => c.setMd ax none
+    | some f =>
+      match c.md ax with
+      | none => c
+      | some ms => if (ms.map f).all (·.isEmpty) then c.setMd ax none else c.setMd ax (some (ms.map f))
+
+def absRun (ms : List (Micro γ)) (c : Content γ) : Content γ := ms.foldl (fun c m => m.absStep c) c
+
+/-- API operations -/
+inductive Op (γ : Type) where
+  | extIds (l : List Id)                                  -- the caller makes an ID array
+  | inplace (recv : Nat) (bs : List (Body γ))             -- `table = self` ; bodies ; `return table`
+  | new (srcs : List Nat) (F : List (Content γ) → Content γ) (os ss : IdSrc) (post : List (Body γ))
+
+def copyF : List (Content γ) → Content γ := fun cs => cs.headD
+  { obs := [], samp := [], mat := default, omd := none, smd := none, ttype := none }
+
+/-- `table = self.copy()` ; bodies ; `return table` -/
+def Op.copyThen (recv : Nat) (bs : List (Body γ)) : Op γ := .new [recv] copyF .fresh .fresh bs
+
+/-- micro-steps of an operation when `n` tables exist -/
+def Op.micro (n : Nat) : Op γ → List (Micro γ)
+  | .extIds l => [.allocIds l]
+  | .inplace r bs => bodiesMicro r bs
+  | .new srcs F os ss post => .construct srcs F os ss :: bodiesMicro n post
+
+/-- index of the returned table -/
+def Op.result (n : Nat) : Op γ → Option Nat
+  | .extIds _ => none
+  | .inplace r _ => some r
+  | .new .. => some n
+
+def stepOp (h : Heap γ) (op : Op γ) : Heap γ := run h (op.micro h.objs.length)
+
+def runOps (h : Heap γ) (ops : List (Op γ)) : Heap γ := ops.foldl stepOp h
+
+/-! ### The named operations of the property, as instances (alias pattern transcribed from the code) -/
+
+def Op.copy (r : Nat) : Op γ := .copyThen r []
+/-- `self.__class__(self._data.transpose(copy=True), self.ids()[:], self.ids('observation')[:], ..)` -/
+def Op.transpose (r : Nat) (F : List (Content γ) → Content γ) : Op γ :=
+  .new [r] F (.ofTable r .samp) (.ofTable r .obs) []
+/-- `sort_order`: the other axis is `self.ids(..)[:]` (a view); the sorted axis is `order[:]` —
+a new array for a list, a view for an array (`align_to` passes `other.ids(axis)`) -/
+def Op.sortOrder (r : Nat) (ax : Axis) (order : IdSrc) (F : List (Content γ) → Content γ) : Op γ :=
+  match ax with
+  | .samp => .new [r] F (.ofTable r .obs) order []
+  | .obs => .new [r] F order (.ofTable r .samp) []
+def Op.sort (r : Nat) (ax : Axis) (F : List (Content γ) → Content γ) : Op γ := Op.sortOrder r ax .fresh F
+/-- `head`: `self.filter(rows, 'observation', inplace=False)` then `.filter(cols, 'sample')` -/
+def Op.head (r : Nat) (f1 f2 : Body γ) : Op γ := .copyThen r [f1, f2]
+/-- `subsample`: `self.copy()`, kernel on `_get_sparse_data(axis)`, filter on the axis, filter on the other -/
+def Op.subsample (r : Nat) (bodies : List (Body γ)) : Op γ := .copyThen r bodies
+/-- one yielded table of `partition`; `collapse` builds its result the same way -/
+def Op.partition (r : Nat) (ax : Axis) (F : List (Content γ) → Content γ) (post : List (Body γ)) : Op γ :=
+  match ax with
+  | .samp => .new [r] F (.ofTable r .obs) .fresh post
+  | .obs => .new [r] F .fresh (.ofTable r .samp) post
+def Op.collapse (r : Nat) (ax : Axis) (F : List (Content γ) → Content γ) : Op γ := Op.partition r ax F []
+/-- `merge`, `concat`: every constructor argument is newly built -/
+def Op.combine (r : Nat) (others : List Nat) (F : List (Content γ) → Content γ) : Op γ :=
+  .new (r :: others) F .fresh .fresh []
+/-- `align_to`: a chain of `sort_order(other.ids(axis), axis)`; only the last table is returned -/
+def Op.alignTo (r o : Nat) (alignObs alignSamp : Bool) (F : List (Content γ) → Content γ) : Op γ :=
+  .new [r, o] F (.ofTable (if alignObs then o else r) .obs) (.ofTable (if alignSamp then o else r) .samp) []
+
+/-! ### The property, on observations only -/
+
+/-- what the harness (or the model) observed around one call -/
+structure CallObs (γ : Type) where
+  inplace : Bool
+  raised : Bool
+  recv : Nat
+  before : List (Content γ)            -- deep snapshot of every live table before the call
+  after : List (Content γ)             -- the same tables, same order, after the call
+  resultIds : List Nat                 -- returned objects, as indices into the live list (≥ |before| = a new object)
+  results : List (Content γ)           -- their snapshots right after the call
+  reference : Option (Content γ)       -- in-place: what the non-in-place variant returns on an equal table
+  afterPoke : List (Content γ)         -- non-in-place: the `before` tables after the result has been poked
+  extBefore : List (List Id)           -- caller-held arrays
+  extAfter : List (List Id)
+  extAfterPoke : List (List Id)
+
+variable [DecidableEq γ]
+
+open Codec in
+def holdsV (c : CallObs γ) : Verdict :=
+  if c.inplace then
+    allV [
+      chk "inplace.others-unchanged"
+        ((List.range c.before.length).all (fun i => i == c.recv || c.after[i]? == c.before[i]?)
+          && c.after.length == c.before.length),
+      chk "inplace.caller-arrays-unchanged" (c.extAfter == c.extBefore),
+      chk "inplace.returns-receiver" (c.raised || c.resultIds == [c.recv]),
+      chk "inplace.result-is-receiver-state" (c.raised || c.after[c.recv]? == c.results.head?),
+      chk "inplace.equals-noninplace" (c.raised || (c.reference.isSome && c.results.head? == c.reference))]
+  else
+    allV [
+      chk "new.inputs-unchanged" (c.after == c.before),
+      chk "new.caller-arrays-unchanged" (c.extAfter == c.extBefore),
+      chk "new.result-is-new-object" (c.resultIds.all (fun i => decide (c.before.length ≤ i))),
+      chk "new.result-count" (c.raised || (c.resultIds.length == c.results.length)),
+      chk "new.poke-does-not-show-through" (c.afterPoke == c.before),
+      chk "new.poke-caller-arrays-unchanged" (c.extAfterPoke == c.extBefore)]
+
+def holds (c : CallObs γ) : Bool := (holdsV c).isNone
+
+/-! ### The model's own observation of a call -/
+
+/-- deep snapshots of all live tables -/
+def snaps (h : Heap γ) : List (Content γ) := h.objs.map h.absObj
+
+/-- the poke: in-place bodies applied to the result -/
+def obsOp (h : Heap γ) (op : Op γ) (poke : List (Body γ)) : CallObs γ × Heap γ :=
+  let n := h.objs.length
+  let h1 := stepOp h op
+  match op with
+  | .inplace r bs =>
+    ({ inplace := true, raised := false, recv := r, before := snaps h, after := (snaps h1).take n,
+       resultIds := [r], results := (h1.abs r).toList,
+       reference := (stepOp h (Op.copyThen r bs)).abs n,
+       afterPoke := [], extBefore := h.ids, extAfter := h1.ids.take h.ids.length, extAfterPoke := [] }, h1)
+  | _ =>
+    let h2 := stepOp h1 (.inplace n poke)
+    ({ inplace := false, raised := false, recv := 0, before := snaps h, after := (snaps h1).take n,
+       resultIds := (List.range (h1.objs.length - n)).map (· + n),
+       results := (snaps h1).drop n,
+       reference := none,
+       afterPoke := (snaps h2).take n, extBefore := h.ids, extAfter := h1.ids.take h.ids.length,
+       extAfterPoke := h2.ids.take h.ids.length }, h2)
+
+def runObs (h : Heap γ) : List (Op γ × List (Body γ)) → List (CallObs γ)
+  | [] => []
+  | (op, poke) :: rest => (obsOp h op poke).1 :: runObs (obsOp h op poke).2 rest
+
+/-- the guard of the in-place equivalence: `copy()` goes through the constructor, which turns a
+metadata tuple whose entries are all empty into `None`; the in-place variant keeps the tuple. -/
+def Content.mdNormal (c : Content γ) : Bool := normMd c.omd == c.omd && normMd c.smd == c.smd
+
+/-- what `copy()` makes of a content: the constructor's metadata normalisation -/
+def Content.norm (c : Content γ) : Content γ := { c with omd := normMd c.omd, smd := normMd c.smd }
+
+def okCall (h : Heap γ) : Op γ → Bool
+  | .inplace r _ => match h.abs r with | some c => c.mdNormal | none => false
+  | _ => true
+
+/-- the guard holds at every in-place call of a history -/
+def okRun (h : Heap γ) : List (Op γ × List (Body γ)) → Bool
+  | [] => true
+  | (op, poke) :: rest => okCall h op && okRun (obsOp h op poke).2 rest
+
+end model
+
 end Biom.C07
